@@ -362,11 +362,23 @@ class Builder:
                 oldest = min(outs)
                 ins = list(e.ins + e.implicit) + \
                     self.deps.get(e.outs[0], [])
+                # a depfile without `deps =` is read every time the edge is
+                # examined (this is how the regenerate rule watches the
+                # directories find_files walked)
+                df = e.binding('depfile', self.state)
+                dfdeps = []
+                if df and not e.binding('deps', self.state) and \
+                        os.path.exists(df):
+                    try:
+                        dfdeps = parse_depfile(open(df).read())
+                    except OSError:
+                        dfdeps = []
+                ins += dfdeps
                 for i in ins:
                     # a phony input takes the newest time of its inputs
                     t = mtime(i)
                     if t is None:
-                        if i in self.deps.get(e.outs[0], []) or \
+                        if i in self.deps.get(e.outs[0], []) or i in dfdeps or \
                                 (self.state.producer.get(i) and
                                  self.state.producer[i].rule == 'phony'):
                             if not self.state.producer.get(i):
